@@ -7,6 +7,7 @@ Repo-specific facts built in (and validated against the source on every run by `
   * ``raise``                      -> only raises
 """
 import ast
+import os
 from typing import Dict, FrozenSet, List, Optional, Set, Tuple, Iterable
 
 from .model import AnalysisError, FuncNode, call_attr, kwarg, unparse, walk_shallow
@@ -685,9 +686,15 @@ class ReachingDefs:
                             inq.add(s)
                             work.append(s)
 
+    refine = None       # set by FuncAnalysis: path-sensitive pruning of infeasible definitions
+
     def defs_of(self, n: Node, name: str) -> List[Node]:
-        """definition nodes of `name` reaching the *evaluation* of node n (cfg.entry = parameter / unbound)"""
-        return [d for d, v in self.IN[n] if v == name]
+        """definition nodes of `name` reaching the *evaluation* of node n (cfg.entry = parameter / unbound); when several
+        reach, those that only arrive along infeasible paths (PathFacts) are left out"""
+        ds = [d for d, v in self.IN[n] if v == name]
+        if len(ds) > 1 and self.refine is not None:
+            ds = self.refine(n, name, ds)
+        return ds
 
     def is_param_only(self, n: Node, name: str) -> bool:
         ds = self.defs_of(n, name)
@@ -813,6 +820,77 @@ def _pure_atom(a) -> bool:
     return True
 
 
+_CMP_COMPLEMENT = {ast.NotEq: ast.Eq, ast.IsNot: ast.Is, ast.NotIn: ast.In}
+
+
+def canonical_atom(a, pol: bool):
+    """normal form of a literal: `not x` -> (x, flipped); `a is not b` -> (a is b, flipped); likewise != and not in"""
+    while isinstance(a, ast.UnaryOp) and isinstance(a.op, ast.Not):
+        a, pol = a.operand, not pol
+    if isinstance(a, ast.Compare) and len(a.ops) == 1 and type(a.ops[0]) in _CMP_COMPLEMENT:
+        a = ast.Compare(left=a.left, ops=[_CMP_COMPLEMENT[type(a.ops[0])]()], comparators=a.comparators)
+        pol = not pol
+    return a, pol
+
+
+def _identity_atom(a) -> bool:
+    """an atom about what an object *is* (identity / class), which no mutation of the object can change"""
+    if isinstance(a, ast.Compare) and len(a.ops) == 1 and isinstance(a.ops[0], (ast.Is, ast.IsNot)):
+        return not any(isinstance(x, (ast.Attribute, ast.Subscript, ast.Call)) for x in ast.walk(a))
+    if isinstance(a, ast.Call) and isinstance(a.func, ast.Name) and a.func.id in ("isinstance", "issubclass", "callable"):
+        return not any(isinstance(x, (ast.Attribute, ast.Subscript)) for x in ast.walk(a.args[0])) if a.args else False
+    if isinstance(a, ast.Name) and ":=" in getattr(a, "_pseudo", ""):
+        return True
+    return False
+
+
+_NON_MUTATING_METHODS = {"get", "keys", "values", "items", "copy", "lower", "upper", "strip", "startswith", "endswith",
+                         "split", "join", "format", "isdigit", "count", "index", "find", "as_tuple", "is_finite",
+                         "difference", "union", "intersection", "issubset", "issuperset", "isdisjoint", "encode", "decode",
+                         "replace", "rstrip", "lstrip", "total_seconds", "date", "time", "is_required", "is_no_input",
+                         "is_no_output", "always_no_input", "always_no_output", "get_default", "get_on_error"}
+
+
+def node_mutates(n: Node) -> Set[str]:
+    """local names whose object may be changed in place by executing n: the root of an attribute / subscript store or
+    delete, the receiver of a method call (other than a known query), an argument handed to a call"""
+    a = n.ast
+    out: Set[str] = set()
+    if a is None or n.kind not in ("stmt", "test", "iter", "with"):
+        return out
+
+    def root(e):
+        while isinstance(e, (ast.Attribute, ast.Subscript)):
+            e = e.value
+        return e.id if isinstance(e, ast.Name) else None
+    src = [a] if n.kind != "with" else [i.context_expr for i in a.items]
+    for top in src:
+        for x in walk_shallow(top):
+            if isinstance(x, (ast.Attribute, ast.Subscript)) and isinstance(x.ctx, (ast.Store, ast.Del)):
+                r = root(x)
+                if r:
+                    out.add(r)
+            elif isinstance(x, ast.AugAssign) and isinstance(x.target, ast.Name):
+                out.add(x.target.id)
+            elif isinstance(x, ast.Call):
+                f = x.func
+                if isinstance(f, ast.Attribute):
+                    if f.attr not in _NON_MUTATING_METHODS:
+                        r = root(f.value)
+                        if r:
+                            out.add(r)
+                fname = f.id if isinstance(f, ast.Name) else None
+                if fname in PURE_PREDICATES or fname in ("repr", "id", "hash", "abs", "min", "max", "sum", "sorted", "any",
+                                                         "all", "set", "list", "tuple", "dict", "frozenset", "float"):
+                    continue
+                for arg in list(x.args) + [k.value for k in x.keywords]:
+                    if isinstance(arg, ast.Starred):
+                        arg = arg.value
+                    if isinstance(arg, ast.Name):
+                        out.add(arg.id)
+    return out
+
+
 class PathFacts:
     """Path-sensitive branch facts: for a node, a bounded set of *disjuncts*; every execution reaching the node satisfies
     all atoms of at least one disjunct.  Forward data-flow over the statement graph:
@@ -838,7 +916,7 @@ class PathFacts:
             if n.kind == "branch" and not n.is_for and n.test is not None and n.polarity is True:
                 for a, _p in decompose(n.test, True) + decompose(n.test, False):
                     for sub in self._leaves(a):
-                        t = unparse(sub)
+                        t = unparse(canonical_atom(sub, True)[0])
                         counts[t] = counts.get(t, 0) + 1
         self.correlated = {t for t, c in counts.items() if c >= 2}
         self.atom_ast: Dict[str, ast.AST] = {}
@@ -861,7 +939,7 @@ class PathFacts:
 
     def _tracked(self, a) -> bool:
         for sub in self._leaves(a):
-            t = unparse(sub)
+            t = unparse(canonical_atom(sub, True)[0])
             if t in self.correlated or (self.want is not None and self.want(t)):
                 return True
         return False
@@ -892,8 +970,8 @@ class PathFacts:
                         parts = decompose(v, is_or)        # what "v is true" (or) / "v is ... " means as atoms
                         # value of operand v under d: known if single atom
                         if len(parts) == 1:
-                            k = self._key(parts[0][0])
-                            want = parts[0][1]
+                            ca, want = canonical_atom(parts[0][0], parts[0][1])
+                            k = self._key(ca)
                             if k in d:
                                 if d[k] == want:
                                     sat = True if is_or else sat
@@ -910,6 +988,7 @@ class PathFacts:
                         continue
                     if len(rest) == 1:
                         for at, p2 in decompose(rest[0], is_or):
+                            at, p2 = canonical_atom(at, p2)
                             k = self._key(at)
                             if k in d:
                                 if d[k] != p2 and _pure_atom(at):
@@ -924,6 +1003,7 @@ class PathFacts:
     def _add(self, disj: FrozenSet, atoms) -> Optional[FrozenSet]:
         d = dict(disj)
         for a, pol in atoms:
+            a, pol = canonical_atom(a, pol)
             if not self._tracked(a):
                 continue
             k = self._key(a)
@@ -938,12 +1018,28 @@ class PathFacts:
             return None
         return frozenset(d.items())
 
-    def _kill(self, state: FrozenSet, names) -> FrozenSet:
+    def _kill(self, state: FrozenSet, names, mutated=()) -> FrozenSet:
+        """drop the atoms that mention a rebound name, and the state atoms (truthiness, length, membership, attribute
+        reads - everything but identity / class tests) that mention a name whose object may have been changed in place"""
         names = set(names)
+        mutated = set(mutated)
         out = set()
         for disj in state:
-            out.add(frozenset((t, p) for t, p in disj if not (self.atom_names[t] & names)))
+            keep = []
+            for t, p in disj:
+                an = self.atom_names[t]
+                if an & names:
+                    continue
+                if mutated and (an & mutated) and not self._is_identity(t):
+                    continue
+                keep.append((t, p))
+            out.add(frozenset(keep))
         return frozenset(out)
+
+    def _is_identity(self, t: str) -> bool:
+        if ":=" in t:
+            return True
+        return _identity_atom(self.atom_ast[t])
 
     def _collapse(self, state: FrozenSet) -> FrozenSet:
         it = iter(state)
@@ -952,9 +1048,59 @@ class PathFacts:
             common &= set(d)
         return frozenset([frozenset(common)])
 
+    def _mutates(self, n: Node) -> Set[str]:
+        m = self._mut.get(n)
+        if m is None:
+            m = self._mut[n] = node_mutates(n)
+        return m
+
+    def _value_atoms(self, n: Node, g, state: FrozenSet) -> FrozenSet:
+        """`x = None` / `x = <literal>` / `x = SENTINEL` (a name that is not a local): what the binding says about later
+        `x is ...` tests"""
+        a = n.ast
+        if not (n.kind == "stmt" and isinstance(a, ast.Assign) and len(a.targets) == 1 and isinstance(a.targets[0], ast.Name)):
+            return state
+        x = a.targets[0].id
+        if not self.want(f"{x}:="):
+            return state
+        v = a.value
+        facts = []
+
+        def is_atom(rhs_text, rhs_ast):
+            node = ast.Compare(left=ast.Name(id=x, ctx=ast.Load()), ops=[ast.Is()], comparators=[rhs_ast])
+            return node
+        if isinstance(v, ast.Constant) and (v.value is None or isinstance(v.value, bool)):
+            facts.append((is_atom(repr(v.value), ast.Constant(value=v.value)), True))
+            for other in (None, True, False):
+                if other is not v.value:
+                    facts.append((is_atom(repr(other), ast.Constant(value=other)), False))
+        elif isinstance(v, ast.Constant) or isinstance(v, (ast.JoinedStr, ast.List, ast.Dict, ast.Set, ast.Tuple, ast.ListComp,
+                                                          ast.DictComp, ast.SetComp)):
+            facts.append((is_atom("None", ast.Constant(value=None)), False))
+        elif isinstance(v, ast.Name) and v.id not in self.rd.locals:
+            facts.append((is_atom(v.id, ast.Name(id=v.id, ctx=ast.Load())), True))
+        if not facts:
+            return state
+        out = set()
+        for disj in state:
+            d = dict(disj)
+            for at, pol in facts:
+                d[self._key(at)] = pol
+            out.add(frozenset(d.items()))
+        return frozenset(out)
+
     def _solve(self):
         cfg = self.cfg
-        empty = frozenset([frozenset()])
+        self._mut: Dict[Node, Set[str]] = {}
+        entry_marks = []
+        if self.want is not None:
+            for v in sorted(self.rd.locals):
+                if self.want(f"{v}:="):
+                    t = f"{v}:=entry"
+                    self.atom_ast[t] = ast.Name(id=v, ctx=ast.Load())
+                    self.atom_names[t] = {v}
+                    entry_marks.append((t, True))
+        empty = frozenset([frozenset(entry_marks)])
         self.OUT[cfg.entry] = empty
         self.IN[cfg.entry] = empty
         # reverse post-order priorities: a node is revisited only after its (forward) predecessors settled
@@ -1005,7 +1151,7 @@ class PathFacts:
                 seen_pred = True
                 if k != N and p is not cfg.entry:
                     # the statement raised: its own bindings may or may not have happened
-                    src = self._kill(src, self.rd.gen.get(p) or ())
+                    src = self._kill(src, self.rd.gen.get(p) or (), self._mutates(p))
                 acc |= src
             if not seen_pred:
                 continue
@@ -1026,7 +1172,22 @@ class PathFacts:
                 new_out = frozenset(outs)
             else:
                 g = self.rd.gen.get(n)
-                new_out = self._kill(new_in, g) if g else new_in
+                mut = self._mutates(n)
+                new_out = self._kill(new_in, g or (), mut) if (g or mut) else new_in
+                if g and self.want is not None:
+                    new_out = self._value_atoms(n, g, new_out)
+                if g and self.want is not None:
+                    # per-path reaching definitions for the names a rule asks for: the pseudo-atom `<name>:=<node id>`
+                    marks = []
+                    for v in g:
+                        if self.want(f"{v}:="):
+                            t = f"{v}:={n.id}"
+                            if t not in self.atom_ast:
+                                self.atom_ast[t] = ast.Name(id=v, ctx=ast.Load())
+                                self.atom_names[t] = {v}
+                            marks.append((t, True))
+                    if marks:
+                        new_out = frozenset(frozenset(set(d) | set(marks)) for d in new_out)
             in_changed = new_in != self.IN.get(n)
             out_changed = new_out != self.OUT.get(n)
             if in_changed or out_changed:
@@ -1065,10 +1226,38 @@ class FuncAnalysis:
         self.rd = ReachingDefs(self.cfg, finfo.params)
         self.facts = Facts(self.cfg, self.rd)
         self._paths = {}
+        self.rd.refine = self._refine_defs
 
     @property
     def paths(self) -> "PathFacts":
         return self.paths_for(None)
+
+    def paths_for_name(self, name: str) -> "PathFacts":
+        """path-sensitive facts tracking every test that mentions `name` and the per-path definition of `name`"""
+        key = ("name", name)
+        if key not in self._paths:
+            import re as _re
+            pat = _re.compile(r"(?<![A-Za-z0-9_.])" + _re.escape(name) + r"(?![A-Za-z0-9_])")
+            self._paths[key] = PathFacts(self.cfg, self.rd, lambda t: bool(pat.search(t)))
+        return self._paths[key]
+
+    def _refine_defs(self, n: Node, name: str, ds: List[Node]) -> List[Node]:
+        if os.environ.get("UTVERIF_NO_PATHS") or len(self.cfg.nodes) > 400:
+            return ds
+        pf = self.paths_for_name(name)
+        if any(c.kind not in ("raise", "exit") for c in pf.collapsed):
+            return ds           # precision was given up somewhere: every definition stays
+        dj = pf.disjuncts_at(n)
+        if not dj:
+            return ds
+        alive = set()
+        for d in dj:
+            marks = [t for t, p in d.items() if p and t.startswith(name + ":=")]
+            if len(marks) != 1:
+                return ds       # not tracked on this path
+            alive.add(marks[0].split(":=", 1)[1])
+        out = [d for d in ds if (("entry" if d is self.cfg.entry else str(d.id)) in alive)]
+        return out or ds
 
     def paths_for(self, words) -> "PathFacts":
         """path-sensitive facts tracking the correlated tests of the function and every atom whose text contains one of
